@@ -102,7 +102,7 @@ def gen_dir(pid: str) -> Path:
 def coqc(path: Path, *, timeout: int = 600) -> tuple[int, str]:
     """Compile one generated file; its directory is mapped to the logical name G<id>."""
     d = path.parent
-    cmd = ['timeout', str(timeout), 'coqc', '-q', '-Q', str(COQ / 'theories'), 'PT',
+    cmd = ['timeout', str(timeout), 'coqc', '-q', '-noglob', '-Q', str(COQ / 'theories'), 'PT',
            '-Q', str(COQ / 'Props'), 'PTProps', '-Q', str(d), 'G' + d.name, str(path)]
     r = subprocess.run(cmd, capture_output=True, text=True, cwd=str(d))
     return r.returncode, r.stdout + r.stderr
@@ -177,6 +177,9 @@ def coq_eval_cases(pid: str, header: str, exprs: list[str], *, shard: int = 400,
     g = gen_dir(pid)
     shards = [exprs[i:i + shard] for i in range(0, len(exprs), shard)]
     paths = []
+    for old in g.iterdir():          # shards of earlier runs (evaluation-only files, nothing imports them)
+        if re.fullmatch(re.escape(name) + r'\d+\..*', old.name) or re.fullmatch(r'\.' + re.escape(name) + r'\d+\.aux', old.name):
+            old.unlink()
     for k, sh in enumerate(shards):
         pth = g / f'{name}{k}.v'
         pth.write_text(header + '\n' + '\n'.join(f'Eval vm_compute in ({e}).' for e in sh) + '\n')
@@ -185,6 +188,8 @@ def coq_eval_cases(pid: str, header: str, exprs: list[str], *, shard: int = 400,
     with ThreadPoolExecutor(max_workers=max(1, NCPU // 2)) as ex:
         outs = list(ex.map(lambda q: coqc(q, timeout=timeout), paths))
     for (rc, out), sh, pth in zip(outs, shards, paths):
+        for ext in ('.vo', '.vok', '.vos', '.glob'):
+            pth.with_suffix(ext).unlink(missing_ok=True)
         if rc:
             raise MachineryError(f'{pth} does not compile:\n' + out[-3000:])
         ans = coq_eval_lines(out)
